@@ -89,6 +89,12 @@ Proof.
   specialize (H x Hx). apply andb_true_iff in H as [H1 H2]. apply Z.leb_le in H1, H2. lia.
 Qed.
 
+Lemma utf8_ascii t : ascii t -> utf8 t = t.
+Proof.
+  intros H. induction H as [|c t Hc Ht IH]; [reflexivity|]. unfold utf8 in *. cbn [flat_map]. rewrite IH.
+  unfold utf8_char. destruct (Z.ltb_spec c 128); [reflexivity|lia].
+Qed.
+
 (* ====================================================================== *)
 (* truncation and the two offset computations                              *)
 (* ====================================================================== *)
@@ -304,6 +310,9 @@ Lemma hline_hwrite h row text align clear : hline h row text align clear = hwrit
 Proof. reflexivity. Qed.
 
 Definition opt_ascii (o : option (list Z)) : Prop := match o with Some t => ascii t | None => True end.
+
+Lemma opt_utf8_ascii o : opt_ascii o -> option_map utf8 o = o.
+Proof. destruct o as [t|]; cbn; [intros H; rewrite (utf8_ascii t H); reflexivity|reflexivity]. Qed.
 
 Lemma line_opt_refines h d row (ot : option (list Z)) align clear :
   fits (d_g d) -> shows h d -> 0 <= row < d_rows d -> opt_ascii ot -> align_ok align = true ->
@@ -665,7 +674,7 @@ Proof.
   - destruct (align_ok align); [|exact I]. eapply pin_inv_textual; [apply textual_write_aligned|exact I].
   - destruct (align_ok align); [|exact I]. eapply pin_inv_textual; [apply textual_write_aligned|exact I].
   - destruct (align_ok top_align && align_ok bottom_align); [|exact I].
-    set (d1 := match top with Some t => _ | None => d end).
+    set (d1 := match option_map utf8 top with Some t => _ | None => d end).
     assert (I1 : pin_inv d1) by (subst d1; destruct top; [eapply pin_inv_textual; [apply textual_write_aligned|exact I]|exact I]).
     destruct bottom; [eapply pin_inv_textual; [apply textual_write_aligned|exact I1]|exact I1].
   - eapply pin_inv_textual; [apply textual_lcd_clear|exact I].
@@ -733,12 +742,12 @@ Proof.
     apply andb_true_iff in Hg as [Hg Hal]. apply andb_true_iff in Hg as [Hg Hasc]. apply andb_true_iff in Hg as [Hrow Hcol].
     apply row_in_spec in Hrow. apply col_in_spec in Hcol.
     destruct (write_refines h d col row text clear align Hf Sh Hrow Hcol (asciib_ascii _ Hasc) Hal) as (h' & E & F & S' & T & _).
-    rewrite Hal. eexists; eexists. split; [exact E|]. split; [reflexivity|]. split; [eapply agrees_text; eassumption|apply T].
+    rewrite Hal, (utf8_ascii _ (asciib_ascii _ Hasc)). eexists; eexists. split; [exact E|]. split; [reflexivity|]. split; [eapply agrees_text; eassumption|apply T].
   - (* line *)
     apply andb_true_iff in Hg as [Hg Hal]. apply andb_true_iff in Hg as [Hrow Hasc].
     apply row_in_spec in Hrow. rewrite hline_hwrite.
     destruct (write_refines h d 0 row text clear align Hf Sh Hrow ltac:(lia) (asciib_ascii _ Hasc) Hal) as (h' & E & F & S' & T & _).
-    rewrite Hal. eexists; eexists. split; [exact E|]. split; [reflexivity|]. split; [eapply agrees_text; eassumption|apply T].
+    rewrite Hal, (utf8_ascii _ (asciib_ascii _ Hasc)). eexists; eexists. split; [exact E|]. split; [reflexivity|]. split; [eapply agrees_text; eassumption|apply T].
   - (* message *)
     apply andb_true_iff in Hg as [Hg Hbr]. apply andb_true_iff in Hg as [Hg Hba]. apply andb_true_iff in Hg as [Hg Hta].
     apply andb_true_iff in Hg as [Hat Hab].
@@ -747,7 +756,8 @@ Proof.
     assert (At : opt_ascii top) by (destruct top; [apply asciib_ascii; exact Hat|exact I]).
     assert (Ab : opt_ascii bottom) by (destruct bottom; [apply asciib_ascii; exact Hab|exact I]).
     destruct (message_refines h d top bottom top_align bottom_align clear Hf Sh At Ab Hta Hba Hb) as (h' & E & F & S' & T & _).
-    rewrite Hta, Hba. cbn [andb]. eexists; eexists. split; [exact E|]. split; [reflexivity|].
+    rewrite Hta, Hba, (opt_utf8_ascii _ At), (opt_utf8_ascii _ Ab). cbn [andb].
+    eexists; eexists. split; [exact E|]. split; [reflexivity|].
     split; [eapply agrees_text; eassumption|apply T].
   - (* clear *)
     destruct Sh as (G & Wf & Ec).
@@ -760,7 +770,8 @@ Proof.
     apply row_in_spec in Hrow. apply Z.ltb_lt in Hm. apply Z.eqb_eq in Hfe.
     destruct (progress_refines h d row value maxv width style label Hf Sh Hrow Hst (asciib_ascii _ Hasc) Hm Hw Hfe)
       as (h' & E & F & S' & T & _).
-    rewrite Hst. eexists; eexists. split; [exact E|]. split; [reflexivity|]. split; [eapply agrees_text; eassumption|apply T].
+    rewrite Hst, (utf8_ascii _ (asciib_ascii _ Hasc)).
+    eexists; eexists. split; [exact E|]. split; [reflexivity|]. split; [eapply agrees_text; eassumption|apply T].
   - (* display *)
     eexists; eexists. split; [reflexivity|]. split; [reflexivity|].
     assert (Gd : d_g (dev_display d on) = d_g d).
